@@ -24,7 +24,7 @@ import (
 func TestVerifC18(t *testing.T) {
 	vfMain(t, vfCheck{
 		ID: "C18", Level: "exploration",
-		Rule: "seeded determinate phased programs (phases of up to 64 pipelined READs of files with distinct contents, WRITEs to disjoint ranges, mixed path/handle commands) served twice by the same server kind on identical state, allocator off and on; delays at the send/worker hooks, bounded transport. A class is (server, phase shape, buffer mode); non-trivial when pages were reused (allocGet returned a previously released page).",
+		Rule:        "seeded determinate phased programs (phases of up to 64 pipelined READs of files with distinct contents, WRITEs to disjoint ranges, mixed path/handle commands) served twice by the same server kind on identical state, allocator off and on; delays at the send/worker hooks, bounded transport. A class is (server, phase shape, buffer mode); non-trivial when pages were reused (allocGet returned a previously released page).",
 		Assumptions: []string{"race detector on", "at quiescence the receive loop legitimately holds one page tagged with the next, not yet assigned order id"},
 		Units: func(tier vfTier, seed uint64) int {
 			if tier == vfThorough {
